@@ -203,7 +203,10 @@ func parkedSignature() string {
 			continue
 		}
 		st := g.state
-		if !parkedState(st) && st != "GC worker (idle)" && st != "finalizer wait" && st != "GC sweep wait" && st != "GC scavenge wait" && st != "force gc (idle)" && st != "cleanup wait" && st != "debug call" && !strings.HasPrefix(st, "GC ") && st != "trace reader (blocked)" {
+		if strings.Contains(g.stack, "rawclient.(*Client).WaitFor") || strings.Contains(g.stack, "eventSink).waitCount") || strings.Contains(g.stack, "vrun.stuckVerdict") {
+			return "" // a harness wait with its own timer is pending: it will end by itself
+		}
+		if !parkedState(st) && st != "GC worker (idle)" && st != "finalizer wait" && st != "GC sweep wait" && st != "GC scavenge wait" && st != "force gc (idle)" && st != "cleanup wait" && st != "debug call" && !strings.HasPrefix(st, "GC ") && st != "trace reader (blocked)" && st != "idle" && !strings.HasSuffix(st, "(idle)") {
 			if strings.Contains(g.stack, "os/signal.") || strings.Contains(g.stack, "runtime.ensureSigM") {
 				continue
 			}
